@@ -161,7 +161,7 @@ def parse_direct(W, body, mem, parts_lim, bufsize, k, via=None):
 
 def check_parser(W, rec, rng, hook):
     kindsel = rng.random()
-    mem = rng.choice([None, 10, 64, 300, 1000])
+    mem = rng.choice([None, 10, 64, 300, 1000, 0, 1])
     special = None
     big_header = 0
     if kindsel < 0.72:
@@ -267,7 +267,7 @@ def check_request(W, rec, rng):
 
     Request = W["Request"]
     kind = rng.choice(["multipart", "urlencoded", "urlencoded"])
-    mem = rng.choice([None, 10, 64, 64, 300, 300, "default"])
+    mem = rng.choice([None, 10, 64, 64, 300, 300, "default", 0, 1])
     memv = 500_000 if mem == "default" else mem
     base = memv or 64
     if kind == "multipart":
